@@ -3,6 +3,7 @@ package main
 import (
 	"fmt"
 	"math/big"
+	"strings"
 
 	"verif/harness/internal/val"
 	"verif/harness/internal/vc"
@@ -101,6 +102,13 @@ func genC15(r *vc.Run) {
 							"id+1":    {val.A(cn), val.I64(int64(t)), val.I(add(ids[i], 1)), val.I(shares[i]), flat},
 							"t-1":     {val.A(cn), val.I64(int64(t - 1)), val.I(ids[i]), val.I(shares[i]), flat},
 							"share+q": {val.A(cn), val.I64(int64(t)), val.I(ids[i]), val.I(new(big.Int).Add(shares[i], q)), flat},
+							// ids and shares that are 0 modulo the order in any representation: refused (the points id^j*V_j and share*G are the identity)
+							"id=0":     {val.A(cn), val.I64(int64(t)), val.I64(0), val.I(shares[i]), flat},
+							"id=q":     {val.A(cn), val.I64(int64(t)), val.I(q), val.I(shares[i]), flat},
+							"id=5q":    {val.A(cn), val.I64(int64(t)), val.I(mul(q, big.NewInt(5))), val.I(shares[i]), flat},
+							"share=0":  {val.A(cn), val.I64(int64(t)), val.I(ids[i]), val.I64(0), flat},
+							"share=q":  {val.A(cn), val.I64(int64(t)), val.I(ids[i]), val.I(q), flat},
+							"share=2q": {val.A(cn), val.I64(int64(t)), val.I(ids[i]), val.I(mul(q, big.NewInt(2))), flat},
 						}
 						fl := val.AsInts(flat)
 						for c := 0; c <= t; c++ {
@@ -124,7 +132,7 @@ func genC15(r *vc.Run) {
 									r.Violate("vss-equivalent-share-rejected|"+cn, "share + q (the same residue) is rejected", vc.Line("vss_verify", va))
 								}
 							} else if accepted {
-								r.Violate("vss-tamper-accepted|"+cn+"|"+name[:2], "an altered component ("+name+") still verifies", vc.Line("vss_create", cargs), vc.Line("vss_verify", va))
+								r.Violate("vss-tamper-accepted|"+cn+"|"+strings.SplitN(name, "=", 2)[0][:2], "an altered component ("+name+") still verifies", vc.Line("vss_create", cargs), vc.Line("vss_verify", va))
 							}
 						}
 					}
